@@ -52,7 +52,7 @@ def gen_cases(tier, seed):
     hist = []
     for n in range(1, L + 1):
         hist.extend(list(h) for h in itertools.product(alpha, repeat=n))
-    nrand = 150 if tier == "quick" else 3000
+    nrand = 150 if tier == "quick" else 10000
     for _ in range(nrand):
         n = int(rng.integers(5, 41))
         hist.append([str(rng.choice(OPS, p=_P)) for _ in range(n)])
